@@ -1,6 +1,6 @@
 (* Property C01 — column definitions are reproduced exactly and in order; none lost or invented (parser stage, core fragment). *)
 From Coq Require Import String Ascii List ZArith NArith Bool.
-From SDP Require Import Base PyStr LR RealTables Lexer Actions Parse Engine Seq KeywordProofs Entity Table TableProofs.
+From SDP Require Import Base PyStr LR RealTables Lexer Actions Parse Engine Seq KeywordProofs Entity Output Table TableProofs TableOutProofs.
 Import ListNotations.
 Open Scope string_scope.
 
@@ -23,6 +23,20 @@ Theorem C01_columns_exact : forall t norm silent, Table.wf norm t = true ->
   parse_lexemes norm silent (Table.lexemes t) = Ok (Some (Table.denote norm t)).
 Proof. exact table_parse. Qed.
 Print Assumptions C01_columns_exact.
+
+(* ... and through the output stage (mode sql, flat result): the reported table has one column entry per declared column, in
+   declaration order, each with the declared name, type text, size, default, uniqueness and reference; the per-column
+   primary_key flag has moved to the table's primary_key list and a key column is reported non-nullable *)
+Theorem C01_columns_exact_in_the_reported_table : forall t norm silent, Table.wf norm t = true -> nms norm (t_name t) <> "" ->
+  parse_lexemes norm silent (Table.lexemes t) = Ok (Some (Table.denote norm t)) /\
+  Output.format "sql" false [Table.denote norm t]
+  = Ok (PList [PDict (final_table (onm norm (t_schema t)) (PStr (nms norm (t_name t))) (cds norm t))]).
+Proof. exact table_parse_and_format. Qed.
+Print Assumptions C01_columns_exact_in_the_reported_table.
+Theorem C01_one_entry_per_declared_column : forall norm t,
+  List.length (map (final_col (pk_of (cds norm t))) (cds norm t)) = Datatypes.S (List.length (t_rest t)).
+Proof. exact one_entry_per_column. Qed.
+Print Assumptions C01_one_entry_per_declared_column.
 
 (* which grammar keywords can NOT name a column or a referenced column: derived on the real tables *)
 Theorem C01_keywords_not_accepted_as_column_name :
